@@ -2,7 +2,7 @@
     This file only restates theorems proved in Proofs/ and prints their assumptions. *)
 From Coq Require Import FMapPositive.
 From Draco Require Import Base.Codec Model.Varint Model.RansSymbol Model.RansFloat Model.SymbolCoding Model.RansBound
-  Proofs.RansSymbol_proofs Proofs.SymbolCoding_proofs Proofs.RansBound_proofs.
+  Proofs.RansSymbol_proofs Proofs.SymbolCoding_proofs Proofs.RansBound_proofs Proofs.RansBound_examples.
 Local Open Scope Z_scope.
 
 (** rANS state invariant and step inversion: one rans_write keeps the state in [L, 256 L) (L = 4 * 2^P) and the
@@ -226,16 +226,14 @@ Example C08_example_reject : enc_symbols 0 7 1 [2 ^ 31] = None /\ enc_symbols 1 
   /\ exists bs, enc_symbols 0 7 1 [2 ^ 31 - 1] = Some bs.
 Proof. vm_compute. repeat split. eexists; reflexivity. Qed.
 
-(** The hypotheses of C08_write_area_sufficient are satisfiable: [3;1;3;3] at 12 bits, E = 4 = ceil(cross). *)
+(** The hypotheses of C08_write_area_sufficient are satisfiable: [3;1;3;3] at 12 bits, E = 4 = ceil(cross).
+    (The vm_compute runs behind this and the next two Examples are in Proofs/RansBound_examples.v.) *)
 Example C08_example_write_area :
   exists probs st, create_f64 12 (dense (count_syms [3; 1; 3; 3] (PositiveMap.empty Z)) 0 4) = COk probs /\
     ebits_ok 12 probs (dense (count_syms [3; 1; 3; 3] (PositiveMap.empty Z)) 0 4) 4 /\
     rans_encode_syms 12 (arr_of_list (with_cum probs 0)) [3; 1; 3; 3] (rans_write_init 12) = Some st /\
     rans_area_used 12 st = Some 4 /\ rans_reserved 4 = 13.
-Proof.
-  eexists; eexists. split; [vm_compute; reflexivity|]. split; [unfold ebits_ok; vm_compute; intros H; discriminate H|].
-  split; [vm_compute; reflexivity|]. split; vm_compute; reflexivity.
-Qed.
+Proof. exact example_write_area. Qed.
 
 (** The theorem separates the two estimates of num_expected_bits_.  99900 x symbol 0 and 100 symbols occurring once,
     12 bits precision: Create gives symbol 0 the probability 3996/4096 and the others 1/4096; the cross entropy
@@ -246,14 +244,6 @@ Qed.
     2300 (the first conjunct is the 100th root of 100000^100000 <= 2^2300 * 99900^99900); an area sized from any
     E <= 2300 holds at most 587 bytes: three bytes (at E = 1806: 126 bytes) less than what is written, and
     [ebits_check] rejects every such E (it needs E >= 2965). *)
-Definition C08_dominated_freqs : list Z := 99900 :: repeat 1 100.
-Definition C08_dominated_syms : list Z := map Z.of_nat (seq 1 100) ++ repeat 0 (Z.to_nat 99900).
-Definition C08_dominated_probs : list Z :=
-  Eval vm_compute in match create_f64 12 C08_dominated_freqs with COk p => p | _ => [] end.
-Definition C08_dominated_state : rstate :=
-  Eval vm_compute in
-    match rans_encode_syms 12 (arr_of_list (with_cum C08_dominated_probs 0)) C08_dominated_syms (rans_write_init 12) with
-    | Some st => st | None => (0, []) end.
 Example C08_example_shannon_estimate_overflows :
   1000 ^ 999 * 100000 <= 2 ^ 23 * 999 ^ 999 /\
   create_f64 12 C08_dominated_freqs = COk C08_dominated_probs /\ nth 0 C08_dominated_probs 0 = 3996 /\
@@ -264,9 +254,7 @@ Example C08_example_shannon_estimate_overflows :
   rans_reserved 2300 = 587 /\ rans_reserved 1806 = 464 /\
   ebits_check 12 C08_dominated_probs C08_dominated_freqs 2300 = false /\
   ebits_check 12 C08_dominated_probs C08_dominated_freqs 2964 = false.
-Proof.
-  split; [vm_compute; intros H; discriminate H|]. repeat split; vm_compute; reflexivity.
-Qed.
+Proof. exact example_shannon_estimate_overflows. Qed.
 
 (** What the premise of C08_create_succeeds_for_callers_partial excludes.  4097 distinct symbols: from the true count the
     raw scheme derives bit length 13 and 19 bits of precision and Create succeeds; from a count of 0 (the value a
@@ -276,4 +264,4 @@ Example C08_example_create_needs_true_count :
   rans_precision_bits (raw_bit_length 4097 7) = 19 /\ create_ok 19 (repeat 1 (Z.to_nat 4097)) = true /\
   rans_precision_bits (raw_bit_length 0 7) = 12 /\ create_f64 12 (repeat 1 (Z.to_nat 4097)) = CFalse /\
   nused (repeat 1 (Z.to_nat 4097)) = 4097.
-Proof. repeat split; vm_compute; reflexivity. Qed.
+Proof. exact example_create_needs_true_count. Qed.
